@@ -48,6 +48,14 @@ CLAIMED = {
             'timeout_rejected, timeout_cc_rejected, same_way_accepted, different_exit_rejected about Gen/CheckerGen.v (regenerated each run) and facts read off execute() (kill, communicate(timeout), exact shape of the timeout handler); '
             'tie: real runs where fault pairs make particular candidates hang/spin/allocate/die, over strategies, -j, --timeout/--memout, SIGKILL golden runs and hanging golden runs; every written content, wall time and surviving children are checked.',
             'PARTIAL: kernel enforcement of RLIMIT_*, pipe draining, kill/wait ordering and the Popen fact that returncode is None right after kill() are runtime behaviour the model assumes.', 'DESIGN.md section 4, C10'),
+    'C04': ('Coq proof of the exit-status automaton and of mutator-failure isolation (arbitrary res-valued mutators) + malformed-stream correspondence on every main-process function and real executables',
+            'exit_status_zero_iff, completed_iff, usage_diag, mutator_isolated about Model/Cli.v; parser/renderers are total Gallina functions (C07/C08 models). Tie: malformed texts through parser, theory '
+            'detection, collect_information, renderers, reduplicate and both task generators with all mutators in process; bin/ddsmt and python -m ddsmt on every usage error, malformed inputs with all strategies, SIGINT; real reductions.',
+            'PARTIAL: absence of internal errors in collect_information/theory detection/strategy bookkeeping on malformed input is tied by correspondence and real runs only (not a theorem); MemoryError modelled only.', 'DESIGN.md section 4, C04'),
+    'C06': ('Coq proof that every prefix of the write-temp-then-rename operation sequence leaves a complete accepted text at the output path + instrumented rewrites with an interrupt injected at every low-level event and real runs under a polling reader / SIGKILL / SIGINT',
+            'crash_safe, complete_from_first_rewrite_on, interrupt_keeps_last_accepted about Model/FileProto.v for every chunking and prefix; truncating_protocol_refuted for the pre-repair protocol. Tie: the real write_smtlib_to_file with open/os wrapped: '
+            'disk content read after each event, KeyboardInterrupt at every event index, observed operation history replayed in the extracted model; real runs with a concurrent reader, SIGKILL, SIGINT.',
+            'PARTIAL: atomicity of rename(2), CPython buffering and signal timing are assumed/sampled, not proved.', 'DESIGN.md section 4, C06'),
 }
 ALL = ['C%02d' % i for i in range(1, 19)]
 NOT_APPLICABLE = {p: PARTIAL for p in ALL if p not in CLAIMED}
